@@ -164,6 +164,7 @@ func (w *World) commit(t *simcore.Task, wt *WTxn) {
 		if mc.Entries[ti] > m.MinVis {
 			m.MinVis = mc.Entries[ti]
 		}
+		m.Chain[mc.Entries[ti]].Returned = true
 	}
 	// the returned snapshot contains the transaction (C02)
 	sn := w.bindMode(rtxn, fmt.Sprintf("snapshot returned by Commit of T%d", wt.id), nil, true)
